@@ -170,7 +170,8 @@ func (a *AliveDialerSet) GetMinLatency(excluded *Dialer) (d *Dialer, latency tim
 		if entry.dialer == excluded {
 			continue
 		}
-		if entry.sortingLatency < nextBestSortingLatency {
+		// nextBest == nil: time.Hour is only the "nobody yet" start value, not a latency bound.
+		if nextBest == nil || entry.sortingLatency < nextBestSortingLatency {
 			nextBestSortingLatency = entry.sortingLatency
 			nextBest = entry.dialer
 		}
@@ -317,9 +318,12 @@ func (a *AliveDialerSet) NotifyLatencyChange(dialer *Dialer, alive bool) {
 		if index := a.dialerToIndex[dialer]; index >= 0 {
 			a.aliveEntries[index].sortingLatency = sortingLatency
 		}
+		// With no current best there is nothing to be tolerant about: an alive dialer with a
+		// measurement is selected whatever its (offset) latency is.
 		if alive &&
-			sortingLatency <= a.minLatency.sortingLatency &&
-			(a.minLatency.sortingLatency < a.tolerance || sortingLatency <= a.minLatency.sortingLatency-a.tolerance) {
+			(a.minLatency.dialer == nil ||
+				(sortingLatency <= a.minLatency.sortingLatency &&
+					(a.minLatency.sortingLatency < a.tolerance || sortingLatency <= a.minLatency.sortingLatency-a.tolerance))) {
 			a.minLatency.sortingLatency = sortingLatency
 			a.minLatency.dialer = dialer
 		} else if a.minLatency.dialer == dialer {
@@ -399,7 +403,7 @@ func (a *AliveDialerSet) calcMinLatency() {
 	var minLatency = time.Hour
 	var minDialer *Dialer
 	for i := range a.aliveEntries {
-		if a.aliveEntries[i].sortingLatency < minLatency {
+		if minDialer == nil || a.aliveEntries[i].sortingLatency < minLatency {
 			minLatency = a.aliveEntries[i].sortingLatency
 			minDialer = a.aliveEntries[i].dialer
 		}
